@@ -179,7 +179,11 @@ def main(tier, replay=None):
     if not replay:
         # the real teosd binary killed (SIGKILL) and restarted on its data directory: the bootstrap of main.rs itself
         import e2e
-        for t in e2e.run(PID, tier):
+        # after a restart every tag of the response / accounting properties is this property's ("answered exactly as in an
+        # uninterrupted run")
+        for t in e2e.run(PID, tier, also=lambda x: x.get("after_crash") and x["prop"] in ("C01", "C02", "C04", "C07", "C09")):
+            if t["prop"] != PID:
+                t = dict(t, what="after_restart.%s.%s" % (t["prop"], t["what"]))
             verdict.disagree(t["what"], t["event"]["act"], "e2e-" + t["scenario"]["name"].split("-")[0],
                              "C03 (teosd binary): %s at %s (scenario %s, trace %s line %d)" % (t["what"], t["event"]["act"], t["scenario"]["name"], t["trace"], t["line"]),
                              {"scenarios": [t["scenario"]], "tag": [t["line"], t["prop"], t["what"]], "event": t["event"], "tier": "e2e"})
